@@ -59,8 +59,8 @@ def make_items(seed, tier):
         for sh in gram.SHELLS:
             r = rng.sub("ex/%s/%s" % (name, sh))
             fm = "enumerate"
-            if quick and name == "mygit.usage" and sh != full_git:
-                fm = "sample"
+            if quick and name == "mygit.usage":
+                fm = "sample"     # quick: the 1.5 MB scripts get sampled fault positions only (mygrep is the enumerated multi-chunk example)
             add("example:" + name, text, r, shell=sh, dots="none" if name != "hello.usage" else ("both" if sh == "bash" or not quick else "none"),
                 fault_mode=fm)
     # one big example with dot files (sampled dot-file fault positions)
@@ -385,7 +385,7 @@ def make_plans(item, R, rng, tier):
             plans.append(rng.choice(cand))
         return plans
     for role, rp in by_role.items():
-        lim = 64 if role in ("input", "dest", "stderr", "stdout") else (8 if not full else 160)
+        lim = 64 if role in ("input", "dest", "stderr", "stdout") else (5 if not full else 160)
         if not full and len(rp) > 64:
             lim = 40
         for p in sampled_positions(rp, rng.sub("pos/" + role), lim):
@@ -401,7 +401,7 @@ def make_plans(item, R, rng, tier):
         plans.append(["fault input read %d errfrom EIO" % rp[0][2]])
     # sampled double faults: one entry from each of two different positions
     singles = [pl for pl in plans if len(pl) == 1]
-    ndouble = min(len(singles), 8 if not full else 60)
+    ndouble = min(len(singles), 6 if not full else 60)
     for _ in range(ndouble):
         a = rng.choice(singles)
         b = rng.choice(singles)
@@ -552,7 +552,10 @@ def _run_plans(item, case, R, plans, fs, out, pr, nwrites_dest, seen_classes, rn
             out["runs"] += 1
             v2 = judge_faulted(item, R, res)
             if v2 != v:
-                out["forkserver_discrepancy"] = out.get("forkserver_discrepancy", 0) + 1
+                if v.startswith("hang") or v.startswith("too-many-steps"):
+                    out["timeouts_not_confirmed"] = out.get("timeouts_not_confirmed", 0) + 1   # wall clock under load, not a verdict
+                else:
+                    out["forkserver_discrepancy"] = out.get("forkserver_discrepancy", 0) + 1
             v = v2
         if v:
             plan = essential_plan(item, case, R, plan, v)
